@@ -138,7 +138,7 @@ def _triple_close(a, b, tol=DB_TOL):
 @oracle
 def si_sdr_definition(reference, estimation):
     """si_sdr = 10 log10(|alpha s|^2 / |s_hat - alpha s|^2), alpha = <s, s_hat> / |s|^2 (the minimiser of the residual)"""
-    v = si_sdr(reference.copy(), estimation.copy())
+    v = si_sdr(reference.copy(order='K'), estimation.copy(order='K'))
     if np.shape(v) != ():
         return Fail('shape', f'si_sdr of two vectors has shape {np.shape(v)}')
     s = [float(t) for t in reference]
@@ -158,7 +158,7 @@ def si_sdr_definition(reference, estimation):
 
 @oracle
 def si_sdr_scale_invariance(reference, estimation, a, b):
-    v0 = si_sdr(reference.copy(), estimation.copy())
+    v0 = si_sdr(reference.copy(order='K'), estimation.copy(order='K'))
     v1 = si_sdr(a * reference, b * estimation)
     if not mu.close_db(v1, v0, 1e-7):
         return Fail('scale', f'si_sdr(a s, b s_hat) = {np.asarray(v1).tolist()} != si_sdr(s, s_hat) = '
@@ -168,7 +168,7 @@ def si_sdr_scale_invariance(reference, estimation, a, b):
 @oracle
 def si_sdr_leading_independence(reference, estimation):
     """acts independently per leading index (including broadcasting of the leading axes)"""
-    v = np.asarray(si_sdr(reference.copy(), estimation.copy()))
+    v = np.asarray(si_sdr(reference.copy(order='K'), estimation.copy(order='K')))
     E, R = np.broadcast_arrays(estimation, reference)
     if v.shape != R.shape[:-1]:
         return Fail('shape', f'si_sdr shape {v.shape} for broadcast shape {R.shape}')
@@ -181,7 +181,7 @@ def si_sdr_leading_independence(reference, estimation):
 # ============================================================================= oracles: input_sxr / output_sxr
 @oracle
 def input_sxr_identities(images, noise, average_sources, average_channels, return_dict, c):
-    res = sx.input_sxr(images.copy(), noise.copy(), average_sources, average_channels, return_dict=return_dict)
+    res = sx.input_sxr(images.copy(order='K'), noise.copy(order='K'), average_sources, average_channels, return_dict=return_dict)
     prob, got = _unpack(res, return_dict)
     if prob:
         return Fail('return-container', 'input_sxr: ' + prob)
@@ -189,7 +189,7 @@ def input_sxr_identities(images, noise, average_sources, average_channels, retur
     if not _triple_close(got, want):
         return Fail('definition', f'input_sxr = {[np.asarray(g).tolist() for g in got]}, powers give '
                     f'{[np.asarray(w).tolist() for w in want]}')
-    per = tuple(sx.input_sxr(images.copy(), noise.copy(), False, average_channels))
+    per = tuple(sx.input_sxr(images.copy(order='K'), noise.copy(order='K'), False, average_channels))
     p = _decomposition_problem(*per)
     if p:
         return Fail('decomposition', 'input_sxr: ' + p)
@@ -200,7 +200,7 @@ def input_sxr_identities(images, noise, average_sources, average_channels, retur
     if not _triple_close(both, got):
         return Fail('common-scale', f'input_sxr changes under a common rescaling by {c}: '
                     f'{[np.asarray(g).tolist() for g in both]} vs {[np.asarray(g).tolist() for g in got]}')
-    img = tuple(sx.input_sxr(c * images, noise.copy(), average_sources, average_channels))
+    img = tuple(sx.input_sxr(c * images, noise.copy(order='K'), average_sources, average_channels))
     shift = 20 * math.log10(abs(c))
     if not mu.close_db(img[2], np.asarray(got[2]) + shift, DB_TOL):
         return Fail('image-scale-snr', f'scaling the images by {c}: SNR {np.asarray(img[2]).tolist()} != '
@@ -218,14 +218,14 @@ def output_sxr_identities(image_contribution, noise_contribution, average_source
     want, sel, margin = _ref_output_sxr(image_contribution, noise_contribution, average_sources)
     if margin < 1e-9:
         return Skip('tie-within-rounding: two output selections capture the same power')
-    res = sx.output_sxr(image_contribution.copy(), noise_contribution.copy(), average_sources, return_dict)
+    res = sx.output_sxr(image_contribution.copy(order='K'), noise_contribution.copy(order='K'), average_sources, return_dict)
     prob, got = _unpack(res, return_dict)
     if prob:
         return Fail('return-container', 'output_sxr: ' + prob)
     if not _triple_close(got, want):
         return Fail('selection-or-definition', f'output_sxr = {[np.asarray(g).tolist() for g in got]}; the selection '
                     f'{sel} capturing the most source power gives {[np.asarray(w).tolist() for w in want]}')
-    per = tuple(sx.output_sxr(image_contribution.copy(), noise_contribution.copy(), False))
+    per = tuple(sx.output_sxr(image_contribution.copy(order='K'), noise_contribution.copy(order='K'), False))
     p = _decomposition_problem(*per)
     if p:
         return Fail('decomposition', 'output_sxr: ' + p)
@@ -235,7 +235,7 @@ def output_sxr_identities(image_contribution, noise_contribution, average_source
     both = tuple(sx.output_sxr(c * image_contribution, c * noise_contribution, average_sources))
     if not _triple_close(both, got):
         return Fail('common-scale', f'output_sxr changes under a common rescaling by {c}')
-    img = tuple(sx.output_sxr(c * image_contribution, noise_contribution.copy(), average_sources))
+    img = tuple(sx.output_sxr(c * image_contribution, noise_contribution.copy(order='K'), average_sources))
     shift = 20 * math.log10(abs(c))
     if not mu.close_db(img[2], np.asarray(got[2]) + shift, DB_TOL):
         return Fail('image-scale-snr', f'scaling the image contributions by {c}: SNR {np.asarray(img[2]).tolist()} != '
@@ -278,8 +278,8 @@ def set_snr_then_get_snr(X, N, snr, axis, inplace, pass_current):
     cur = None
     if pass_current:
         cur = sx.get_snr(X, N, axis=axis, keepdims=True)
-    N0 = N.copy()
-    N1 = N.copy()
+    N0 = N.copy(order='K')
+    N1 = N.copy(order='K')
     out = sx.set_snr(X, N1, snr, current_snr=cur, axis=axis, inplace=inplace)
     if inplace:
         if out is not None:
@@ -518,10 +518,10 @@ def corr(ctx):
             ctx.corr(op, _vals_close(parse_floats(o), want), f'get_snr code={want} model={parse_floats(o).tolist()}',
                      {'X': meta['X'], 'N': meta['N']})
         elif op == 'set_snr':
-            _, want = sx.set_snr(meta['X'], meta['N'].copy(), meta['snr'], inplace=False)
+            _, want = sx.set_snr(meta['X'], meta['N'].copy(order='K'), meta['snr'], inplace=False)
             got = parse_floats(o)
             ok = got.shape == want.shape and bool(np.all(np.abs(got - want) <= 1e-9 * np.abs(want)))
-            N2 = meta['N'].copy()
+            N2 = meta['N'].copy(order='K')
             sx.set_snr(meta['X'], N2, meta['snr'])          # in place
             ok = ok and np.array_equal(N2, want)
             ctx.corr(op, ok, f'set_snr(snr={meta["snr"]}) rescaled noise differs', {'X': meta['X'], 'N': meta['N'],
